@@ -587,7 +587,7 @@ private:
     AST_CHILD_LST4(innerDecltor_,
                    colonTkIdx_,
                    expr_,
-                   expr_);
+                   attrs_);
 };
 
 //--------------//
